@@ -237,7 +237,8 @@ class C03(core.Check):
         "branch decisions on TOL are reproduced exactly (TOL is the exact rational image of the float, |c-1| is exact in floats for c in [0.5,2])",
         "negative expansion ratios are outside the property's quantifier and outside the model (complex / nan arithmetic); not generated",
         "inputs within 2% of the TOL switch or in the cancellation zone TOL <= |T-1| < 1e-4 of the root-finding count are "
-        "exercised, but there a rejection or a count off by one at a tie is accepted (documented numerical fragility, no wrong grading)",
+        "exercised, but there a rejection or a count off by one at a tie is accepted (documented numerical fragility, no wrong grading); "
+        "likewise a rejection where first and last cell of a (size, total expansion) pair fill the edge exactly (two-cell tie)",
     ]
     partial_note = (
         "Theorems: closure order on the generated relation table, geometric-sum law, end/first ratio, count specification "
